@@ -13,7 +13,7 @@ from translate_py import Z, B, S, O, L, D, T
 from vlib import coq_bool_cases
 
 HEADER = ("From Coq Require Import ZArith List Bool.\nFrom Coq Require String.\nImport String.StringSyntax.\n"
-          "From XV Require Import Base.PyLib Gen.PyBcast Gen.PyMisc Gen.PyUnique Gen.PyPackerIdx Gen.PyPureFn Gen.PyEditable Gen.PyTensorPacker.\n"
+          "From XV Require Import Base.PyLib Gen.PyBcast Gen.PyMisc Gen.PyUnique Gen.PyPackerIdx Gen.PyPureFn Gen.PyEditable Gen.PyTensorPacker Gen.PyDispatch Gen.PyDispatchEig.\n"
           "Open Scope Z_scope.\n")
 
 
@@ -446,6 +446,62 @@ def case_tensorpacker(rng, u, mod):
                 key=("tensorpacker", tuple(tuple(sh) for sh in shapes)))
 
 
+def _fragment_code(unitname):
+    """the source statements of a translated body fragment, compiled for CPython (same boundaries and skips as the translator)"""
+    import ast as _ast
+    relpath, specs = tp.UNITS[unitname][:2]
+    spec = specs[0]
+    u = tp.Unit(relpath, specs)
+    fdef = u.functions()[spec["qual"]]
+    texts = [_ast.unparse(x).split("\n")[0] for x in fdef.body]
+    i0, i1 = texts.index(spec["fragment"]["from"]), texts.index(spec["fragment"]["until"])
+    stmts = [x for x in fdef.body[i0:i1] if _ast.unparse(x).split("\n")[0] not in spec.get("skip", [])]
+    return compile(_ast.Module(body=stmts, type_ignores=[]), relpath, "exec")
+
+
+_FRAG = {}
+
+
+def case_dispatch(rng, u, mod, unitname, coqname):
+    """the method-selection code in front of the dispatch of solve() / symeig(): the very statements of the source are executed
+    by CPython on stub operators (dense or not, small or not, Hermitian or not, M absent or not)"""
+    if unitname not in _FRAG:
+        _FRAG[unitname] = _fragment_code(unitname)
+
+    class MatrixLinearOperator:
+        pass
+
+    class Other:
+        pass
+    a_dense, m_none, m_dense = rng.random() < 0.5, rng.random() < 0.4, rng.random() < 0.5
+    n = rng.choice([1, 4, 5, 6, 40])
+    a_h, m_h = rng.random() < 0.5, rng.random() < 0.5
+    A = (MatrixLinearOperator if a_dense else Other)()
+    A.shape, A.is_hermitian = (2, n, n), a_h
+    M = None
+    if not m_none:
+        M = (MatrixLinearOperator if m_dense else Other)()
+        M.is_hermitian = m_h
+    r = rng.random()
+    if r < 0.35:
+        m = ("none",)
+    elif r < 0.8:
+        base = rng.choice(["cg", "exactsolve", "ExactEig", "BiCGStab", "custom_exacteig", "zz", ""])
+        m = ("str", "".join(ch.upper() if rng.random() < 0.4 else ch for ch in base))
+    elif r < 0.9:
+        m = ("call", 5)
+    else:
+        m = ("tok", 9)
+
+    def call(pool):
+        ns = {"A": A, "M": M, "MatrixLinearOperator": MatrixLinearOperator, "method": pool.get(m)}
+        exec(_FRAG[unitname], ns)
+        return ns["method"]
+    ins = [a_dense, m_none or m_dense, n, a_h, m_none or m_h]
+    term = "%s %s %s %d %s %s %s" % (coqname, c_val(ins[0], B), c_val(ins[1], B), n, c_val(ins[3], B), c_val(ins[4], B), c_val(m, O))
+    return dict(args=[ins, m], call=call, term=term, rtype=O, key=(coqname, tuple(ins), m[0], m[1] if m[0] == "str" else None))
+
+
 FUNCTIONS = {
     "normalize_bcast_dims": ("PyBcast", "xitorch._utils.bcast", lambda r, u, m: case_bcast(r, u, m, "normalize_bcast_dims")),
     "get_bcasted_dims": ("PyBcast", "xitorch._utils.bcast", lambda r, u, m: case_bcast(r, u, m, "get_bcasted_dims")),
@@ -458,6 +514,8 @@ FUNCTIONS = {
     "purefunction": ("PyPureFn", "xitorch._core.pure_function", case_purefn),
     "editable_module": ("PyEditable", "xitorch._core.editable_module", case_editable),
     "tensorpacker": ("PyTensorPacker", "xitorch._utils.misc", case_tensorpacker),
+    "solve_prelude": ("PyDispatch", "xitorch.linalg.solve", lambda r, u, m: case_dispatch(r, u, m, "PyDispatch", "solve_method_prelude")),
+    "symeig_prelude": ("PyDispatchEig", "xitorch.linalg.symeig", lambda r, u, m: case_dispatch(r, u, m, "PyDispatchEig", "symeig_method_prelude")),
 }
 
 
